@@ -135,11 +135,18 @@ static int start_field(npd_scan_state_t *nssp)
 /*
  * end_field: end the current field
  *   @nssp: scanner state
+ *
+ * Return:
+ *	 0: success
+ *	-1: out of memory error
  */
-static void end_field(npd_scan_state_t *nssp)
+static int end_field(npd_scan_state_t *nssp)
 {
-    add_char(nssp, '\000');
+    if (add_char(nssp, '\000') == -1) {
+	return -1;
+    }
     ++nssp->nss_field_count;
+    return 0;
 }
 
 /*
@@ -245,7 +252,9 @@ static int scan_line(npd_scan_state_t *nssp)
 	    }
 	    GET_CHAR(nssp);
 	}
-	end_field(nssp);
+	if (end_field(nssp) == -1) {
+	    return -1;
+	}
     }
 
     /*
